@@ -304,6 +304,46 @@ def line_offsets(code: str) -> T.List[int]:
     return offs
 
 
+def addr_of(code: str, off: int) -> T.Tuple[int, int]:
+    """the line/column of offset `off`, from the text alone: 1 + number of newline characters before it, and
+    the distance back to the previous newline character (written from the property statement; shares nothing
+    with the lexer's bookkeeping or the line table)"""
+    return 1 + code.count('\n', 0, off), off - (code.rfind('\n', 0, off) + 1)
+
+
+def lex_stream(mparser, MesonException, code: str) -> T.Tuple[str, T.List[T.Tuple[str, str]]]:
+    """token stream of the real `Lexer.lex` in the format of the driver command `lex` (every token, trivia
+    included, with line_start, lineno, colno, bytespan start AND end), and the position oracle on it"""
+    toks: T.List[str] = []
+    viol: T.List[T.Tuple[str, str]] = []
+    tail = ''
+    prev_end = 0
+    try:
+        for t in mparser.Lexer(code).lex('f'):
+            toks.append(f'{t.tid}:{t.line_start}:{t.lineno}:{t.colno}:{t.bytespan[0]}:{t.bytespan[1]}:{S(t.value)}')
+            if not viol:
+                a, b = t.bytespan
+                if a != prev_end or b <= a or b > len(code):
+                    viol.append(('position:token-span', f'token {t.tid} has bytespan {t.bytespan} after a token ending at {prev_end}'))
+                elif (t.lineno, t.colno) != addr_of(code, a):
+                    viol.append(('position:token-line-column',
+                                 f'token {t.tid} {code[a:b]!r} at offset {a} is recorded at {t.lineno}:{t.colno}; '
+                                 f'the text puts that offset at {addr_of(code, a)[0]}:{addr_of(code, a)[1]}'))
+                prev_end = b
+    except mparser.ParseException as e:
+        tail = f' !{e.lineno}:{e.colno}'
+    except RecursionError:
+        return '', []
+    except Exception as e:
+        tail = f' !internal:{type(e).__name__}'
+    return ' '.join(toks) + tail, viol
+
+
+def multiline_token_text(code: str) -> bool:
+    """texts in which a token can span lines or a '\\r' occurs (always included in the lexer stream comparison)"""
+    return '\\' in code or "'''" in code or '\r' in code or ("'" in code and '\n' in code)
+
+
 def raw_print(RawPrinter, node) -> str:
     p = RawPrinter()
     node.accept(p)
@@ -371,6 +411,9 @@ def run_one(mods, code: str) -> Outcome:
         viol.append((f'printer-error:{type(e).__name__}', f'RawPrinter raised {type(e).__name__}: {e}'))
         return Outcome('', viol, tags, True)
     rt_ok = printed == code
+    if any(type(n).__name__ == 'ArgumentNode' and n.order_error for n in walk(tree)):
+        # "the side condition is exactly what the printer reorders": evidence only, no verdict
+        tags.append('impl:order-error:' + ('printed-faithfully' if rt_ok else 'printed-reordered'))
     if not rt_ok:
         key = classify_roundtrip(mparser, code, printed, tree)
         viol.append((key, 'RawPrinter(parse(s)) != s'))
@@ -410,11 +453,18 @@ def run_one(mods, code: str) -> Outcome:
                 if cut != core or cut != by_offsets:
                     bad = (f'text[span] of {k} at {n.lineno}:{n.colno}-{n.end_lineno}:{n.end_colno} is {cut!r}, '
                            f'construct is {core!r}')
+                elif (n.lineno, n.colno) != addr_of(code, first.bytespan[0]) or \
+                        (n.end_lineno, n.end_colno) != addr_of(code, last.bytespan[1]):
+                    # the same text can be cut by a wrong line number with a compensating column: the extent
+                    # must be the line/column of its two ends
+                    key = 'position:extent-line-column'
+                    bad = (f'{k} {core!r} is recorded at {n.lineno}:{n.colno}-{n.end_lineno}:{n.end_colno}; its ends are '
+                           f'at {addr_of(code, first.bytespan[0])} and {addr_of(code, last.bytespan[1])}')
             elif k in ('IdNode', 'NumberNode', 'StringNode', 'BooleanNode', 'SymbolNode') and \
                     getattr(n, 'bytespan', (0, 0)) != (0, 0):
                 # a token's line/column must address the character at which the lexer found it
                 a = at(n.lineno, n.colno)
-                if a != n.bytespan[0]:
+                if a != n.bytespan[0] or (n.lineno, n.colno) != addr_of(code, n.bytespan[0]):
                     key = 'position:token-line-column'
                     bad = (f'{k} {code[n.bytespan[0]:n.bytespan[1]]!r} found at offset {n.bytespan[0]} is recorded at '
                            f'{n.lineno}:{n.colno}, which is offset {a}')
@@ -1048,12 +1098,37 @@ def _process(codes: T.List[str], want_nontrivial: bool) -> dict:
     res['state'] = sorted(st_ev)
     outs = [run_one(mods, c) for c in codes]
     lines = [f'parse {enc(c)}|{names_field(c)}' for c in codes]
+    # second stream: the raw token stream of Lexer.lex (every token incl. trivia: line_start, lineno, colno,
+    # bytespan start and END) against the model's `lex`, on every text that can hold a multi-line token and on
+    # every 4th other text; the position oracle (line = 1 + newlines before, column = distance to the previous
+    # newline) is applied to the same streams
+    lex_idx = [i for i, c in enumerate(codes) if i % 4 == 0 or multiline_token_text(c)]
+    lex_impl = {}
+    for i in lex_idx:
+        ls, lv = lex_stream(mods[0], mods[2], codes[i])
+        lex_impl[i] = ls
+        for key, what in lv:
+            if len(res['viol']) < 200:
+                res['viol'].append((key, what, codes[i]))
+    lines += [f'lex {enc(codes[i])}' for i in lex_idx]
     model: T.List[T.Optional[str]]
     if os.path.exists(common.driver_path('lang')) and not os.environ.get('VERIF_NO_MODEL'):
         model = list(common.run_driver('lang', lines))
     else:
-        model = [None] * len(codes)
+        model = [None] * len(lines)
     tags = res['tags']
+    tags['lexer-stream-compared'] = len(lex_idx)
+    for i, m in zip(lex_idx, model[len(codes):]):
+        if m is not None and lex_impl[i] != m:
+            tags['lexer-stream-differs'] = tags.get('lexer-stream-differs', 0) + 1
+            if len(res['dis']) < 10:
+                a, b = lex_impl[i].split(' '), m.split(' ')
+                j = next((x for x in range(min(len(a), len(b))) if a[x] != b[x]), min(len(a), len(b)))
+                res['dis'].append({'input': codes[i], 'impl': 'lex: token %d: %s' % (j, ' '.join(a[j:j + 2])[:200]),
+                                   'model': 'lex: token %d: %s' % (j, ' '.join(b[j:j + 2])[:200])})
+            else:
+                res['dis_more'] = res.get('dis_more', 0) + 1
+    model = model[:len(codes)]
     for c, o, m in zip(codes, outs, model):
         res['n'] += 1
         for t in o.tags:
@@ -1069,6 +1144,14 @@ def _process(codes: T.List[str], want_nontrivial: bool) -> dict:
             tags[mt] = tags.get(mt, 0) + 1
             if mc.startswith('OK|') and m.split('|', 2)[1] != '0':
                 tags['model:lossy-path'] = tags.get('model:lossy-path', 0) + 1
+            # the model's ghost counter against the order_error flags of its own tree (theorem order_flag_sound
+            # gives counter = 0 -> no flag; the converse, order_flag_complete, is checked here on every input).
+            # '] 1 w' can only be the order_error field of an Args node (strings are rendered as code points)
+            if mc.startswith('OK|') and (m.split('|', 2)[1] != '0') != ('] 1 w' in m):
+                tags['model:lossy-vs-flag-differ'] = tags.get('model:lossy-vs-flag-differ', 0) + 1
+                if len(res['dis']) < 10:
+                    res['dis'].append({'input': c, 'impl': 'order_error flags of the tree',
+                                       'model': 'ghost counter lossy=' + m.split('|', 2)[1] + ' disagrees with the flags of the model tree'})
             if mc != o.canon:
                 if len(res['dis']) < 10:
                     res['dis'].append({'input': c, 'impl': o.canon[:300], 'model': mc[:300]})
@@ -1276,7 +1359,7 @@ def search(ctx: Ctx, disagreements: T.List[dict]) -> None:
         budget -= 1
         o = run_one(mods, code)
         hit = False
-        for key, what in o.violations:
+        for key, what in o.violations + lex_stream(mods[0], mods[2], code)[1]:
             before = len(ctx.violations)
             ctx.violation(key, what, {'input': code, 'family': 'search:' + why})
             hit = hit or len(ctx.violations) > before
@@ -1318,7 +1401,7 @@ def replay(ctx: Ctx, rep: dict) -> None:
         o = run_one(mods, code)
         print('input :', repr(code))
         print('impl  :', o.canon[:2000])
-        for key, what in o.violations:
+        for key, what in o.violations + lex_stream(mods[0], mods[2], code)[1]:
             print('oracle:', key, '-', what)
             ctx.violation(key, what, {'input': code})
         if ctx.model_available:
@@ -1326,6 +1409,12 @@ def replay(ctx: Ctx, rep: dict) -> None:
             print('model :', m[:2000])
             if o.canon and model_canon(m) != o.canon:
                 ctx.disagreement({'input': code, 'impl': o.canon[:300], 'model': model_canon(m)[:300]})
+            ml = ctx.driver('lang', [f'lex {enc(code)}'])[0]
+            il = lex_stream(mods[0], mods[2], code)[0]
+            if il != ml:
+                print('lex impl :', il[:1000])
+                print('lex model:', ml[:1000])
+                ctx.disagreement({'input': code, 'impl': 'lex: ' + il[:300], 'model': 'lex: ' + ml[:300]})
 
 
 # ------------------------------------------------------------------ generated tables
